@@ -5,6 +5,16 @@ import json, sys
 pid, tag = sys.argv[1], sys.argv[2]
 p = [json.loads(l) for l in open('/verif/properties.jsonl') if json.loads(l)['id'] == pid][0]
 wt = f"/tmp/wt/{pid}_{tag}"
+import glob, os
+prior = []
+for d in sorted(glob.glob(f"/verif/seeded/{pid}_*")):
+    try:
+        prior.append(json.load(open(d + "/meta.json"))["summary"])
+    except Exception:
+        pass
+prior_text = ""
+if prior:
+    prior_text = "\n\nALREADY USED (earlier injectors picked these; choose a DIFFERENT mechanism at a different code site, ideally exercising another part of the property's scope):\n" + "\n".join(f"- {x}" for x in prior)
 out = f"/tmp/wt_out/{pid}_{tag}"
 print(f"""You are helping to evaluate a verification framework for the open-source project sharkdp/numbat (a statically typed scientific-calculator language with physical dimensions as types, written in Rust). Your job is to act as a *realistic bug injector*: produce ONE small source change to numbat that breaks the semantic property below, while the project still compiles and its existing test suite still passes.
 
@@ -21,5 +31,7 @@ WHAT I NEED:
 3. A demonstration that FAILS with your change and PASSES without it: preferably a numbat script plus expected output run through the CLI (`cargo run --offline -q -p numbat-cli -- --no-config --no-init -e '<expr>'` or a file), or a small Rust test file. Verify both directions yourself (to compare, save your change with `git diff > /tmp/wt_out/<your dir>/p.diff`, undo it with `git apply -R`, re-apply it with `git apply`; do NOT use `git stash`: the stash is shared between worktrees and other people work in sibling worktrees).
 4. Write to {out}/ (create it): `patch.diff` (output of `git -C {wt} diff`), the demonstration (`demo.sh` that exits 0 when the property holds and non-zero when it is broken, run from the worktree root — it may call cargo), and `meta.json` with keys: property ("{pid}"), summary (one sentence), needs (what specific input/sequence it takes to manifest), files_changed, tests_pass (true/false as you observed), demo_fails_with_patch (true/false), demo_passes_without_patch (true/false).
 5. Leave the worktree with your change applied (uncommitted). Do not commit.
+
+{prior_text}
 
 Keep the change minimal and realistic. Report back in a few lines: what you changed, why the tests do not notice, and how the demo shows the breakage.""")
